@@ -153,7 +153,7 @@ def gate_monitor(cfg, case, o):
         if a is not plug.RAISE and not safe_component(a):
             if disp or homes or o["store_changed"]:
                 return "rejected credentials (back-end answered %r) but handler/home/store activity" % a
-            allowed = {413, 500} | ({403} if ext_kind else {401})
+            allowed = {400, 413, 500} | ({403} if ext_kind else {401})   # 400: negative CONTENT_LENGTH
             if o["status"] not in allowed:
                 return "rejected credentials answered with status %d" % o["status"]
             if o["status"] == 401 and not o["www"]:
